@@ -147,10 +147,13 @@ CHECKS["C14"] = dict(
 )
 CHECKS["C17"] = dict(
     engine="spec/derived", category="model_checking",
-    technique="TLA+ specs GridIndex / OctreeRefine / CurveParts (TLC exhaustive over grid shapes, delimiters, origins, rational "
-              "rotations/dips, power-of-two octree dimensions, part labelings; exact rational arithmetic) and CentroidCache (state "
-              "machine: every geometry setter x read) + spec-to-code replay of every enumerated case and of a transition cover of "
-              "the exported state graph through BlockModel/Grid2D/Octree/DrapeModel/Curve",
+    technique="TLA+ specs GridIndex / OctreeRefine (+ Recount phase) / CurveParts (+ Edit phase) (function style: TLC enumerates grid "
+              "shapes, delimiters, origins, rational rotations/dips, power-of-two octree dimensions and later changes of one "
+              "dimension, part labelings and removals of cells/vertices; exact rational arithmetic) and the state machines "
+              "CentroidCache (every geometry setter x read, in a writable workspace and in a file re-opened read-only) and CurveStore "
+              "(live view and stored Cells dataset of a curve under SetParts / RemoveCells / reads / close-and-reopen: stored = live "
+              "after every action, a re-open returns the curve that was closed) + spec-to-code replay of every enumerated case and of a "
+              "transition cover of every exported state graph through BlockModel/Grid2D/Octree/DrapeModel/Curve",
     text="TLC checks the format's index formulas, exact tiling of the base grid, #centres = #cells with and without origin, "
          "segments-join-consecutive-same-part and parts-equal-connected-components on the specified results and prints them as exact "
          "rationals; the harness rebuilds every case with geoh5py and compares centroids (1e-9), n_cells, octree_cells, cells, parts; "
